@@ -82,19 +82,19 @@ SPECS = {
         # matrix_inverse_root: which path is taken / which exception is raised, as a function of the shape, the flags and the config class
         Target("matrix_functions.py", "matrix_inverse_root", mode="decision", coq_name="matrix_inverse_root_path", params=["is_diagonal"],
                ignore_calls=("logging.warning",),
-               atoms=[("torch.numel(A)", "numel", "Z"), ("A.shape", "shape", "list Z"), ("is_diagonal", "is_diagonal", "bool"),
-                      ("type(root_inv_config) is EigenConfig", "is_eigen", "bool"), ("type(root_inv_config) is CoupledNewtonConfig", "is_newton", "bool"),
+               atoms=[("torch.numel(A)", "numel", "Z"), ("A.numel()", "numel", "Z"), ("A.shape", "shape", "list Z"), ("A.dim()", "(py_len shape)", "Z"),
+                      ("is_diagonal", "is_diagonal", "bool"), ("type(root_inv_config) is EigenConfig", "is_eigen", "bool"), ("type(root_inv_config) is CoupledNewtonConfig", "is_newton", "bool"),
                       ("type(root_inv_config) is CoupledHigherOrderConfig", "is_higher_order", "bool"), ("root.denominator", "denominator", "Z")],
-               actions={"return (A - torch.minimum(": 0, "_matrix_inverse_root_diagonal": 1, "_matrix_inverse_root_eigen": 2,
+               actions={r"re:return \(.*\+ epsilon\) \*\* torch\.as_tensor\(-1\.0 / root\)": 0, "_matrix_inverse_root_diagonal": 1, "_matrix_inverse_root_eigen": 2,   # 0: the 1x1 formula, however its operand is named
                         "_matrix_inverse_root_newton": 3, "_matrix_inverse_root_higher_order": 4}),
     ]),
     "C12": ("GenC12", "EquivC12.v", "", [
         # matrix_eigenvectors: which path is taken / which exception is raised
         Target("matrix_functions.py", "matrix_eigenvectors", mode="decision", coq_name="matrix_eigenvectors_path",
-               atoms=[("torch.numel(A)", "numel", "Z"), ("A.shape", "shape", "list Z"), ("is_diagonal", "is_diagonal", "bool"),
-                      ("type(eigenvector_computation_config) is EighEigenvectorConfig", "is_eigh", "bool"),
+               atoms=[("torch.numel(A)", "numel", "Z"), ("A.numel()", "numel", "Z"), ("A.shape", "shape", "list Z"), ("A.dim()", "(py_len shape)", "Z"),
+                      ("is_diagonal", "is_diagonal", "bool"), ("type(eigenvector_computation_config) is EighEigenvectorConfig", "is_eigh", "bool"),
                       ("type(eigenvector_computation_config) is QRConfig", "is_qr", "bool"), ("eigenvectors_estimate", "eigenvectors_estimate", "option Z")],
-               actions={"return torch.ones_like(A)": 0, "torch.eye": 1, "return matrix_eigenvalue_decomposition(": 2, "_compute_orthogonal_iterations": 3}),
+               actions={"return torch.ones_like(A)": 0, "torch.eye": 1, "matrix_eigenvalue_decomposition": 2, "_compute_orthogonal_iterations": 3}),
     ]),
     "C13": ("GenC13", "EquivC13.v", "", [
         Target(PLIST, "BaseShampooPreconditionerList._raise_exception_if_failure_tolerance_exceeded", coq_name="raise_exception_if_failure_tolerance_exceeded",
